@@ -40,6 +40,9 @@ def special_programs(rng):
     # many functions and an interrupt
     fs = "".join("void f%d() { v%d = %d; }\n" % (i, i % 4, i) for i in range(12))
     out.append("unsigned char v0, v1, v2, v3;\n" + fs + "void interrupt irq() { v0++; }\nvoid main() { " + " ".join("f%d();" % i for i in range(12)) + " }\n")
+    # several interrupt functions, each with callees of its own (every one is a root of the in-use set)
+    out.append("unsigned char v0, v1;\nvoid ack1() { v0++; }\nvoid ack2() { v1++; }\nvoid ack3() { v0--; }\n"
+               "void interrupt nmi() { ack1(); }\nvoid interrupt irq() { ack2(); }\nvoid interrupt brk() { ack3(); ack1(); }\nvoid main() { v0 = 1; }\n")
     # errors (diagnostics must be deterministic too)
     out.append("char a;\nvoid main() { b = 1; }\n")
     out.append('char *p;\nvoid f(char *a, char *b) { p = a; }\nvoid main() { f("ab", "cd") }\n')
